@@ -1,5 +1,7 @@
 import BSEModel.Memo
 import BSEGen.Memo
+import BSEGen.MemoShape
+import BSEProofs.Lemmas.MemoHeapInv
 /-! # C06 — caching is invisible
 
 (1) `_make_key` binds exactly as Python binds, for every binding shape of every memoised signature
@@ -153,6 +155,33 @@ theorem memo_refines_pure_init (key : A → Option K) (F : A → V) (hinj : ∀ 
     ∀ o ∈ run key F ⟨en, [], []⟩ sched, o.2 = F o.1 :=
   memo_refines_pure key F hinj sched _ (by intro kv h; cases h) (by intro t h; cases h)
 end
+
+
+/-! ### (3) results are objects the caller may overwrite
+
+`BSEMemoize.__call__` as it stands in the source (regenerated on every run): after a miss it files `pickle.dumps(ret)`, on a hit it
+returns `pickle.loads(...)`, a disabled memoiser and an unbindable call go straight to the function. -/
+
+theorem call_shape_is_good : BSE.Gen.MemoShape.callShape = BSE.MemoHeap.good := by decide
+
+/-- **previously returned objects mutated arbitrarily by the caller**: along every history of calls, overwrites of any object by
+any content (`scribble`), and toggles of the switch, every call hands over an object whose content at that moment is the value of the
+function — the cache holds serialised copies, never an object a caller can reach -/
+theorem memo_isolated_from_caller_mutation {A K V : Type} [DecidableEq K] (key : A → Option K) (F : A → V)
+    (hinj : ∀ a a', key a = key a' → key a ≠ none → F a = F a') (history : List (BSE.MemoHeap.Op A V)) :
+    ∀ p ∈ BSE.MemoHeap.run BSE.Gen.MemoShape.callShape key F BSE.MemoHeap.init history, p.2 = some (F p.1) := by
+  rw [call_shape_is_good]
+  exact BSE.MemoHeap.run_good key F hinj history _ (BSE.MemoHeap.init_inv key F)
+
+/-- the model can tell: a memoiser that files the object itself (`self.__memo[k] = ret`) hands a scribbled-over object to the next caller -/
+theorem live_store_leaks :
+    BSE.MemoHeap.run (A := Nat) (K := Nat) (V := Nat) ⟨.live, .unpickled, .computed, true, true⟩ (fun a => some a) (fun _ => 0)
+      BSE.MemoHeap.init [.call 5, .scribble 0 7, .call 5] = [(5, some 0), (5, some 7)] := by decide
+
+/-- non-vacuity of the theorem: the same history under the shape of the source -/
+example : BSE.MemoHeap.run (A := Nat) (K := Nat) (V := Nat) BSE.Gen.MemoShape.callShape (fun a => some a) (fun _ => 0)
+      BSE.MemoHeap.init [.call 5, .scribble 0 7, .call 5, .toggle, .call 5, .scribble 2 9, .toggle, .call 5]
+        = [(5, some 0), (5, some 0), (5, some 0), (5, some 0)] := by decide
 
 /-- non-vacuity: two threads interleaved with a toggle; the second call hits the cache -/
 example : run (A := Nat) (K := Nat) (V := Nat) (fun a => some (a % 3)) (fun a => (a % 3) * 10) ⟨true, [], []⟩
